@@ -13,7 +13,7 @@ import tlcrun  # noqa: E402
 
 def do_setup():
     bad = 0
-    for f in sorted(glob.glob("/verif/spec/*.tla")):
+    for f in sorted(glob.glob(os.path.join(tlcrun.SPEC_DIR, "*.tla"))):
         ok, out = tlcrun.sany(os.path.basename(f))
         if not ok:
             bad += 1
